@@ -31,7 +31,9 @@ func (c cfgT) String() string {
 // entry is store[id] of the specification.
 type entry struct {
 	data    map[string]string
-	idleDL  time.Time
+	idleDL  time.Time // nominal: last save + idle timeout
+	idleLo  time.Time // alive is required strictly before idleLo
+	idleHi  time.Time // gone is required strictly after idleHi
 	hasAbs  bool
 	absLo   time.Time // alive is required strictly before absLo (idle permitting)
 	absHi   time.Time // gone is required strictly after absHi
@@ -99,10 +101,9 @@ func (w *world) status(id string) (int, string) {
 		return stDead, "never-saved"
 	}
 	st, why := stAlive, ""
-	g := w.cfg.Gran
 	switch {
-	case g == 0 && w.now.Before(e.idleDL), g > 0 && w.now.Before(e.idleDL.Add(-g)):
-	case g == 0 && w.now.After(e.idleDL), g > 0 && w.now.After(e.idleDL.Add(g)):
+	case w.now.Before(e.idleLo):
+	case w.now.After(e.idleHi):
 		return stDead, "idle"
 	default:
 		st, why = stEither, "idle"
@@ -123,14 +124,35 @@ func (w *world) status(id string) (int, string) {
 
 // idleStatus ignores the absolute deadline (storage contents are only removed lazily for it).
 func (w *world) idleStatus(e *entry) int {
-	g := w.cfg.Gran
 	switch {
-	case g == 0 && w.now.Before(e.idleDL), g > 0 && w.now.Before(e.idleDL.Add(-g)):
+	case w.now.Before(e.idleLo):
 		return stAlive
-	case g == 0 && w.now.After(e.idleDL), g > 0 && w.now.After(e.idleDL.Add(g)):
+	case w.now.After(e.idleHi):
 		return stDead
 	}
 	return stEither
+}
+
+// setIdle restarts the idle timeout of an entry saved now with timeout d.
+//
+// Exact storage (vstore, Gran 0): alive strictly before now+d, gone strictly after.
+// Whole-second storage (bundled memory, Gran 1 s): the TTL is truncated to whole seconds and
+// counted on a coarse clock, so the entry may end early — by up to a second for a whole-second
+// timeout, at once for a sub-second one. Only the unambiguous sides are judged: alive is required
+// before now + floor(d) - 1 s (never, for d < 1 s), gone is required after now + ceil(d) + 1 s.
+func (w *world) setIdle(e *entry, d time.Duration) {
+	e.idleDL = w.now.Add(d)
+	if w.cfg.Gran == 0 {
+		e.idleLo, e.idleHi = e.idleDL, e.idleDL
+		return
+	}
+	fl := d.Truncate(time.Second)
+	ce := fl
+	if ce < d {
+		ce += time.Second
+	}
+	e.idleLo = w.now.Add(fl - w.cfg.Gran)
+	e.idleHi = w.now.Add(ce + w.cfg.Gran)
 }
 
 func (w *world) kill(id, cause string) {
@@ -385,7 +407,7 @@ func (j *judge) acquire(o *opObs, first bool, where string) {
 			if why == "abs" {
 				e.hasAbs = false
 			} else {
-				e.idleDL = w.now.Add(time.Hour)
+				w.setIdle(e, time.Hour)
 			}
 		}
 		j.loadFrom(cand, e)
@@ -441,8 +463,10 @@ func (j *judge) persist() {
 	if idle <= 0 {
 		idle = w.cfg.Idle
 	}
-	w.store[c.id] = &entry{data: copyMap(c.data), idleDL: w.now.Add(idle), hasAbs: c.hasAbs, absLo: c.absLo, absHi: c.absHi,
+	ne := &entry{data: copyMap(c.data), hasAbs: c.hasAbs, absLo: c.absLo, absHi: c.absHi,
 		origin: c.origin, lineage: c.lineage}
+	w.setIdle(ne, idle)
+	w.store[c.id] = ne
 	delete(w.dead, c.id)
 	j.emit = emission{emID, c.id}
 }
@@ -677,7 +701,7 @@ func (j *judge) byID(o op, r *opObs, where string) {
 		if why == "abs" {
 			e.hasAbs = false
 		} else {
-			e.idleDL = w.now.Add(time.Hour)
+			w.setIdle(e, time.Hour)
 		}
 	}
 	if viol := w.cmpData(e.data, v.Data, j.rq.Client, e.lineage, "byid", where); viol != nil {
@@ -692,11 +716,11 @@ func (j *judge) byID(o op, r *opObs, where string) {
 		}
 		e.data[o.Key] = o.Val
 		w.valLin[o.Val] = e.lineage
-		e.idleDL = w.now.Add(w.cfg.Idle)
+		w.setIdle(e, w.cfg.Idle)
 		// if the request holds the same session, its in-memory copy is independent (documented
 		// collision): nothing to do, the later save wins
 	} else if o.Save {
-		e.idleDL = w.now.Add(w.cfg.Idle)
+		w.setIdle(e, w.cfg.Idle)
 	}
 }
 
